@@ -461,6 +461,32 @@ fn c14_directed(seed: u64) -> Acc {
     let mut w = World::new(crate::rnd::rng(seed));
     let c = w.add_config(300);
     let u = w.add_user();
+    // preset updates of a tier that change exactly one constant each (and one that changes nothing), judged by the monitor
+    {
+        use crate::ix::build as b;
+        let (m1, m2) = (w.add_spl_mint(6), w.add_spl_mint(6));
+        if w.add_adaptive_pool(c, m1, m2, 1999, 64, 3000, (30, 600, 5000, 4000, 350_000, 64, 64), 1u128 << 64, None).is_ok() {
+            let cfg = w.configs[c].clone();
+            let tier = b::pda_fee_tier(cfg.key, 1999).0;
+            let base = (30u16, 600u16, 5000u16, 4000u32, 350_000u32, 64u16, 64u16);
+            let mut cur = base;
+            let steps: Vec<(u16, u16, u16, u32, u32, u16, u16)> = vec![
+                (31, 600, 5000, 4000, 350_000, 64, 64), (31, 601, 5000, 4000, 350_000, 64, 64), (31, 601, 5001, 4000, 350_000, 64, 64), (31, 601, 5001, 0, 350_000, 64, 64),
+                (31, 601, 5001, 0, 350_001, 64, 64), (31, 601, 5001, 0, 350_001, 32, 64), (31, 601, 5001, 0, 350_001, 32, 65), (31, 601, 5001, 0, 350_001, 32, 65), (31, 601, 5001, 7, 350_001, 32, 65),
+            ];
+            for st in steps {
+                let ix = b::SetPresetAdaptiveFeeConstants { whirlpools_config: cfg.key, adaptive_fee_tier: tier, fee_authority: cfg.fee_authority }.ix(st.0, st.1, st.2, st.3, st.4, st.5, st.6);
+                let o = w.exec(ix);
+                acc.evaluations += 1;
+                crate::hist::Monitor::after(&mut mon, &mut w, &o, &mut acc);
+                acc.count("directed_preset_updates");
+                if o.ok() { cur = st; }
+            }
+            let _ = cur;
+        } else {
+            acc.count("harness_errors");
+        }
+    }
     let mut n = 0u16;
     for gs in [1u16, 2, 64] {
         for control in [4000u32, 0] {
@@ -529,6 +555,63 @@ fn c14_directed(seed: u64) -> Acc {
     acc
 }
 
+/// The adaptive rate of a tick group is ceil(control factor x (accumulator x group size)^2 / 1e13), capped. The
+/// rounding-up division the program uses for it (and its u32 sibling) is swept directly on structured inputs:
+/// the real divisor and others, dividends around every power of two, within one divisor of 2^32 / 2^64 / 2^96 /
+/// 2^127, exact multiples +- 1, and the largest products legal constants can form - against exact integers.
+fn c14_rounding_division(seed: u64) -> Acc {
+    use num_bigint::BigUint;
+    use rand::Rng;
+    let mut acc = Acc::default();
+    let mut r = crate::rnd::rng(seed);
+    let real: u128 = 100_000 * 10_000 * 10_000;
+    let mut divisors: Vec<u128> = vec![1, 2, 3, 7, 10_000, 100_000, 1_000_000, real, real - 1, real + 1, 1 << 32, (1u128 << 64) - 1, 1 << 64];
+    for _ in 0..6 {
+        divisors.push(crate::rnd::log_u64(&mut r).max(1) as u128);
+    }
+    for d in divisors {
+        let mut xs: Vec<u128> = vec![0, 1, d - 1, d, d + 1, u64::MAX as u128, u128::MAX / 2];
+        for k in 1..=127u32 {
+            for dd in -2i128..=2 {
+                xs.push(((1u128 << k) as i128).wrapping_add(dd).max(0) as u128);
+            }
+        }
+        for edge in [1u128 << 32, 1u128 << 64, 1u128 << 96, 1u128 << 127] {
+            for m in 0..3u128 {
+                for dd in -3i128..=3 {
+                    xs.push((edge as i128 - (d.min(edge) * m) as i128 + dd).max(0) as u128);
+                    xs.push((edge as i128 - (d.min(edge) * m) as i128 + (d.min(edge) / 2) as i128 + dd).max(0) as u128);
+                }
+            }
+        }
+        for _ in 0..200 {
+            let q = crate::rnd::log_u64(&mut r) as u128;
+            xs.push(q.saturating_mul(d));
+            xs.push(q.saturating_mul(d).saturating_add(1));
+            xs.push(q.saturating_mul(d).saturating_sub(1));
+            // the largest legal products: control factor < 1e5, accumulator x group size <= u32::MAX
+            let crossed = u32::MAX as u128 - r.gen_range(0..1000u128);
+            xs.push(r.gen_range(1..100_000u128) * crossed * crossed);
+        }
+        for x in xs {
+            acc.evaluations += 1;
+            acc.count("rounding_division_cases");
+            let want = (BigUint::from(x) + BigUint::from(d - 1)) / BigUint::from(d);
+            let got = crate::svm::quiet_catch(|| whirlpool::math::ceil_division_u128(x, d));
+            if got.as_ref().ok().map(|g| BigUint::from(*g)) != Some(want.clone()) {
+                acc.violation("c14:rounding_division".to_string(), format!("ceil_division_u128({x}, {d}) = {:?}, exact {want}", got), serde_json::json!({"dividend": x.to_string(), "divisor": d.to_string()}));
+            }
+            if x <= u32::MAX as u128 && d <= u32::MAX as u128 {
+                let got32 = crate::svm::quiet_catch(|| whirlpool::math::ceil_division_u32(x as u32, d as u32));
+                if got32.as_ref().ok().map(|g| BigUint::from(*g)) != Some(want.clone()) {
+                    acc.violation("c14:rounding_division_u32".to_string(), format!("ceil_division_u32({x}, {d}) = {:?}, exact {want}", got32), serde_json::json!({"dividend": x.to_string(), "divisor": d.to_string()}));
+                }
+            }
+        }
+    }
+    acc
+}
+
 pub fn c14(tier: Tier, seed: u64) -> i32 {
     use crate::monitors::c14::C14;
     let mut rep = Report::new("C14", tier, seed);
@@ -543,6 +626,7 @@ pub fn c14(tier: Tier, seed: u64) -> i32 {
     );
     let mut acc = acc;
     acc.merge(c14_directed(seed ^ 0x14));
+    acc.merge(c14_rounding_division(seed ^ 0xd1f));
     rep.acc = acc;
     rep.floor("directed_far_jumps", 8);
     rep.floor("directed_inside_tick_stops", 12);
